@@ -581,6 +581,14 @@ def run(ctx: fw.Ctx):
         "names are bare identifiers or simply quoted ones (no escapes, no interpolation)",
         "function application is outside the spec's fragment (a set reached through a call is 'not a set')",
     ]
+    ctx.extra["fragment"] = (
+        "resolve_partial covers: let layers (around anything but a bare reference), rec and plain attribute sets, "
+        "inherit clauses, references, literals, any nesting and shadowing, paths of keys; outside it (with, "
+        "inherit-from, lambdas/calls/parentheses on the route, let layers on an identifier, .value steps, quoted "
+        "names) the property is decided per input by the spec oracle on the real code, and the model is tied by "
+        "correspondence only; distribution.in_fragment_of_resolve_partial counts this run's inputs inside it"
+    )
+    ctx.extra["uncovered"] = {}
     from . import c10_registry
 
     # registry first: resolved documents are never released by the code under test (their contexts
